@@ -19,6 +19,7 @@ import (
 	"regexp"
 	"strings"
 	"sync"
+	"sync/atomic"
 	"time"
 
 	"github.com/richardwilkes/toolbox/errs"
@@ -365,6 +366,10 @@ func (c *child) Handle(_ context.Context, r slog.Record) error {
 	case "fail":
 		return errors.New("child failed")
 	case "panic":
+		if atomic.AddInt64(&panicCount, 1)%2 == 0 {
+			var np *int
+			panic(np) // a typed nil inside a non-nil interface is still a panic
+		}
 		panic("child panicked")
 	}
 	return nil
@@ -577,5 +582,7 @@ func gen(r *hx.Rand, n int) []string {
 	}
 	return out
 }
+
+var panicCount int64
 
 func main() { hx.Main(gen, run) }
